@@ -9,7 +9,7 @@ Mirrors the pipeline of `guppylang_internals` for the body of a `@guppy` functio
   are consumed by the builder).
 * an expression node `K` first goes through `ExprBuilder` (a `NodeTransformer`; explicit `visit_K`
   or `generic_visit`, which forwards every child) and, in branch position, `BranchBuilder`; what is
-  left is dispatched by `ExprSynthesizer.visit` **or** `ExprChecker.visit` (two alternatives, chosen
+  not desugared away there is dispatched by `ExprSynthesizer.visit` **or** `ExprChecker.visit` (two alternatives, chosen
   by position; `ExprChecker.generic_visit` falls back to the synthesizer, `ExprSynthesizer.
   generic_visit` raises `UnsupportedError`) **or**, when the node is an assignment target, by the
   single-dispatch `StmtChecker._check_assign` (`AssignTarget`; any other class raises).
@@ -74,34 +74,41 @@ def stmtDisp (k : Kind) (f : Field) : Disp :=
   | none => if genericHow T .CFGBuilder = .rejects then .nodeRejected else .ignored
   | some .raisesUser => .nodeRejected
   | some .raisesInternal => .ignored
+  | some .identity => .ignored
   | some .explicit =>
     let a := stage T .CFGBuilder k f
     match visitHow T .StmtChecker k with
     | some .explicit => a.seq (stage T .StmtChecker k f)
     | _ => a
 
-/-- expressions: `ExprBuilder`/`BranchBuilder`, then `ExprSynthesizer` | `ExprChecker` -/
+/-- One consumer of expression nodes.  Each visitor with an explicit (non-identity) `visit_K` may be
+    the one that consumes the node on some path (`ExprBuilder.visit_Call` turns `comptime(…)` calls
+    into `ComptimeExpr` and forwards all other calls), so each must cover the field *on its own*:
+    a read or guard in one consumer does not excuse another. -/
+def consumer (v : Visitor) (k : Kind) (f : Field) (built : Bool) : Option Disp :=
+  match visitHow T v k with
+  | none => none
+  | some .identity => none
+  | some .explicit => some (stage T v k f)
+  | some .raisesInternal => some (if built then .unreachable else .ignored)  -- must be consumed upstream
+  | some .raisesUser => some .nodeRejected
+
+def altAll : List (Option Disp) → Option Disp
+  | [] => none
+  | none :: r => altAll r
+  | some d :: r => match altAll r with
+    | none => some d
+    | some e => some (d.alt e)
+
+/-- expressions: `ExprBuilder` / `BranchBuilder` (desugaring), `ExprSynthesizer` | `ExprChecker`
+    (evaluation positions), `AssignTarget` (assignment targets) are alternatives -/
 def exprDisp (k : Kind) (f : Field) : Disp :=
-  let b := (stage T .ExprBuilder k f).seq (stage T .BranchBuilder k f)
-  let built := (visitHow T .ExprBuilder k).isSome ∨ (visitHow T .BranchBuilder k).isSome
-  let final (v : Visitor) : Option Disp :=
-    match visitHow T v k with
-    | none => none
-    | some .explicit => some (b.seq (stage T v k f))
-    | some .raisesInternal => some (if built then b else .ignored)   -- must have been consumed upstream
-    | some .raisesUser => some .nodeRejected
-  let evalPos : Disp :=
-    match final .ExprSynthesizer, final .ExprChecker with
-    | none, none =>
-        if (visitHow T .ExprBuilder k) = some .explicit then b          -- desugared away by the builder
-        else if genericHow T .ExprSynthesizer = .rejects then .nodeRejected else .ignored
-    | some a, none => a
-    | none, some c => if genericHow T .ExprSynthesizer = .rejects then c else .ignored
-    | some a, some c => a.alt c
-  -- third alternative: the node is an assignment target (`StmtChecker._check_assign`)
-  match visitHow T .AssignTarget k with
-  | some .explicit => evalPos.alt (stage T .AssignTarget k f)
-  | _ => evalPos
+  let built := visitHow T .ExprBuilder k = some .explicit ∨ visitHow T .BranchBuilder k = some .explicit
+  match altAll [consumer T .ExprBuilder k f built, consumer T .BranchBuilder k f built,
+      consumer T .ExprSynthesizer k f built, consumer T .ExprChecker k f built,
+      consumer T .AssignTarget k f built] with
+  | some d => d
+  | none => if genericHow T .ExprSynthesizer = .rejects then .nodeRejected else .ignored
 
 /-- disposition of a field of a stmt / expr kind -/
 def coreDisp (k : Kind) (f : Field) : Disp :=
